@@ -466,6 +466,55 @@ SELECTION_WRITE_EFFECTS = {'open', 'open64', 'symlink', 'link', 'hardlink', 'mkd
                            'lmtime', 'fmtime', 'handle_create', 'handle_write', 'windows_symlink', 'windows_link'}
 
 
+
+def _flag_guards(f, target):
+    """guards_of(expand=True) plus one step of value flow: a dominating branch on a plain local whose only reaching store is a
+    (possibly negated) <entity>_flag_has(...) test counts as a guard on that test (`int selected = !flag_has(x, F); if (!selected) continue;`)"""
+    res = list(guards_of(f, target, expand=True))
+    tb = target.block
+    from ..guards import _reaches
+
+    def peel(o, pol):
+        o = f.strip(o)
+        for _ in range(8):
+            if o[0] != 'i':
+                break
+            i = f.insts[o[1]]
+            if i.op == 'icmp' and f.const_of(i.ops[1]) == 0 and i.pred in ('ne', 'eq'):
+                pol = (not pol) if i.pred == 'eq' else pol
+                o = f.strip(i.ops[0]); continue
+            if i.op == 'xor' and f.const_of(i.ops[1]) in (1, -1):
+                pol = not pol
+                o = f.strip(i.ops[0]); continue
+            if i.op in ('zext', 'sext', 'trunc'):
+                o = f.strip(i.ops[0]); continue
+            break
+        return o, pol
+    for b in range(len(f.blocks)):
+        t = f.term(b)
+        if t.op != 'br' or len(t.ops) != 3 or not f.bdominates(b, tb) or b == tb:
+            continue
+        outs = [val for val, s_ in ((True, t.ops[2][1]), (False, t.ops[1][1])) if _reaches(f, s_, tb, avoid=b)]
+        if len(outs) != 1:
+            continue
+        o, pol = peel(t.ops[0], outs[0])
+        if o[0] != 'i' or f.insts[o[1]].op != 'load':
+            continue
+        a = f.strip(f.insts[o[1]].ops[0])
+        if a[0] != 'i' or f.insts[a[1]].op != 'alloca':
+            continue
+        st = f.reaching_stores(a[1], f.insts[o[1]])
+        if len(st) != 1 or st[0] is None:
+            continue
+        # the local must have no other store at all (it is a named copy of the test, not a variable reused later)
+        if sum(1 for blk in f.blocks for i in blk if i.op == 'store' and f.strip(i.ops[1]) == ['i', a[1]]) != 1:
+            continue
+        v, pol = peel(st[0].ops[0], pol)
+        if v[0] == 'i' and f.insts[v[1]].op == 'call' and (f.insts[v[1]].callee or '').endswith('_flag_has'):
+            res.append((f.xexpr(v), pol))
+    return res
+
+
 def selection_effects_rule(P, rep, rid):
     """fix writes nothing for an entity the selection left out: in state_check_process every call that changes a data disk
     (create / open for writing / write / time-stamp / link / directory / removal) is control-dependent on the FILE_IS_EXCLUDED
@@ -491,7 +540,7 @@ def selection_effects_rule(P, rep, rid):
         v = c.const_of(x.ops[1])
         if v is None or int(v) == excl:
             continue
-        gs = [(_re.match(r'(\w+)_flag_has\((.*),(\d+)\)$', t.replace(' ', '')), p) for t, p in guards_of(c, x, expand=True)]
+        gs = [(_re.match(r'(\w+)_flag_has\((.*),(\d+)\)$', t.replace(' ', '')), p) for t, p in _flag_guards(c, x)]
         if any(m_ and int(m_.group(3)) == excl and not p for m_, p in gs):
             created.add(int(v))
         else:
@@ -501,7 +550,7 @@ def selection_effects_rule(P, rep, rid):
     if len(sites) < 8:
         raise AnalysisBroken('state_check_process: only %d write-effect call sites found' % len(sites))
     for x in sites:
-        g = guards_of(c, x, expand=True)
+        g = _flag_guards(c, x)
         fl = [(_re.match(r'(\w+)_flag_has\((.*),(\d+)\)$', t.replace(' ', '')), p) for t, p in g]
         fl = [(m_.group(1), m_.group(2), int(m_.group(3)), p) for m_, p in fl if m_]
         sel = [f for f in fl if f[2] == excl and not f[3]]
